@@ -32,6 +32,7 @@ vars == <<fields, nextId, done, prefix>>
 NoTag == [style |-> "none", words |-> <<>>]
 TagOf(style, i) == IF style = "none" THEN NoTag ELSE [style |-> style, words |-> TagWords[i]]
 CollKinds == {"strs", "ints", "smap", "set", "durs", "structs", "nstrs", "nmap", "lnamed", "mnamed", "knamed"}
+RepeatKinds == {"strs", "ints", "smap", "set"}      \* flags for these may be repeated on the command line and accumulate
 NarrowKinds == {"int8", "uint16", "named", "f32", "c64"}     \* leaf types narrower than the widest literal of their family
 \* how a leaf is supplied: not at all / under its primary name / under its alias / under both (an error) / explicitly
 \* empty (collections) / empty under the primary name and a value under the alias (still both: an error) / under its
@@ -40,6 +41,7 @@ PatsK(alias, kind) == (IF alias THEN {"neither", "primary", "alias", "both"} ELS
                       \cup (IF kind \in CollKinds THEN {"empty"} ELSE {})
                       \cup (IF alias /\ kind \in CollKinds THEN {"bothempty"} ELSE {})
                       \cup (IF ~alias /\ kind \in NarrowKinds THEN {"over"} ELSE {})
+                      \cup (IF ~alias /\ kind \in RepeatKinds THEN {"repeat"} ELSE {})   \* flag sources only: two occurrences, each with a part
 Pats(alias) == IF alias THEN {"neither", "primary", "alias", "both"} ELSE {"neither", "primary"}
 
 Leaf(i, kind, style, srctag, alias, pat) ==
@@ -114,7 +116,7 @@ Expect ==
   [leaves |-> [k \in 1..Len(ls) |->
                  LET l == ls[k].leaf  p == ls[k].path IN
                  [id |-> l.id, kind |-> l.kind, pat |-> l.pat,
-                  set |-> l.pat \in {"primary", "alias", "empty"},
+                  set |-> l.pat \in {"primary", "alias", "empty", "repeat"},
                   env |-> EnvWords(p, l, FALSE), envAlias |-> IF l.alias = <<>> THEN <<>> ELSE EnvWords(p, l, TRUE),
                   flag |-> FlagParts(p, l, FALSE), flagAlias |-> IF l.alias = <<>> THEN <<>> ELSE FlagParts(p, l, TRUE)]],
    error |-> \E k \in 1..Len(ls) : ls[k].leaf.pat \in {"both", "bothempty"},
